@@ -136,6 +136,17 @@ Proof. unfold parse_locktime, print_locktime, locktime_wf, locktime_from_consens
   - assert (C20_LOCK_TIME_THRESHOLD <= u32_bound) by (vm_compute; discriminate).
     rewrite parse_print_u32 by lia. cbn [rbind]. now rewrite W.
   - rewrite parse_print_u32 by lia. cbn [rbind]. destruct (N.ltb_spec t C20_LOCK_TIME_THRESHOLD); [lia|reflexivity]. Qed.
+Lemma parse_print_locktime_any l : locktime_to_consensus l < u32_bound ->
+  parse_locktime (print_locktime l) = Ok (locktime_from_consensus (locktime_to_consensus l)).
+Proof. intros H. unfold parse_locktime, print_locktime. now rewrite parse_print_u32. Qed.
+Lemma locktime_from_consensus_wf n : n < u32_bound -> locktime_wf (locktime_from_consensus n) = true.
+Proof. intros H. unfold locktime_from_consensus, locktime_wf. destruct (N.ltb_spec n C20_LOCK_TIME_THRESHOLD) as [L|L].
+  - now apply N.ltb_lt.
+  - apply andb_true_intro. split; [now apply N.leb_le|now apply N.ltb_lt]. Qed.
+Lemma parse_print_locktime_iff l : locktime_to_consensus l < u32_bound ->
+  (parse_locktime (print_locktime l) = Ok l <-> locktime_wf l = true).
+Proof. intros H. split; [|apply parse_print_locktime]. rewrite parse_print_locktime_any by exact H. intros E. inversion E as [E'].
+  rewrite E'. rewrite <- E' at 1. now apply locktime_from_consensus_wf. Qed.
 Lemma parse_print_height h : h < C20_LOCK_TIME_THRESHOLD -> parse_height (print_height h) = Ok h.
 Proof. intros H. unfold parse_height, print_height. assert (C20_LOCK_TIME_THRESHOLD <= u32_bound) by (vm_compute; discriminate).
   rewrite parse_print_u32 by lia. cbn [rbind]. destruct (N.ltb_spec h C20_LOCK_TIME_THRESHOLD); [reflexivity|lia]. Qed.
